@@ -56,6 +56,10 @@ def smt_cases():
     add(S([Group(Alt([Look(L("$"), ahead=False), L("+")]), cap=False), Quant(Esc("d"), 1, None)]), "", "alt_lookbehind_arm_digits")
     add(Alt([S([Group(Alt([Dot(), Quant(Backref(1), 1, 3)])), Cls([ord("s")], neg=True)]), S([])]), "s", "alt_backref_range_or_empty")
     add(S([Group(Alt([Dot(), Quant(Backref(1), 0, 2)])), Backref(1)]), "", "alt_dot_or_backref_loop")
+    # a literal that the input type cannot represent is "no match here", never "abort the attempt"
+    add(S([Group(Alt([L(0xD800), a]), cap=False), b]), "", "alt_lone_surrogate_or_a")
+    add(S([Group(Alt([L(0x101), a]), cap=False), b]), "", "alt_nonascii_literal_or_a", widths=(1,))
+    add(S([Look(L(0x20AC), neg=True), a]), "", "neg_lookahead_nonascii_literal", widths=(1,))
     # quantifiers greedy / lazy / ranges
     add(S([Quant(a, 1, None), b]), "", "plus_then_b")
     add(S([Quant(a, 0, None, False), b]), "", "lazy_star_then_b")
@@ -131,7 +135,7 @@ def smt_cases():
     add(Alt([S([Start(), a]), S([Start(), b])]), "", "anchored_each_branch")
     add(Alt([S([Start(), a]), b]), "", "anchored_one_branch")
     add(S([Start(), a]), "m", "multiline_anchor_literal")
-    add(S([Quant(Start(), 0, 1), a]), "", "optional_anchor")
+    # (/^?a/ is not ECMAScript: only lookaheads are quantifiable under Annex B - the compiler rightly rejects it)
     add(S([Cls([ord("k"), ord("K"), 0x212A]), x]), "", "class_three_lead_bytes")
     add(S([Cls([ord("k")]), x]), "iu", "icase_class_lead_bytes")
     add(S([Cls([ord("a")], neg=True), x]), "", "negated_class_first")
@@ -215,9 +219,10 @@ def run_mode(mode, case, progs, dumper, rng, budget_paths=20000, log=print):
                 res["b"] = native_result(dumper.find_pike(pat, case.flags, False, text, hy.off[s0], ascii=True))
             out["witnesses"] = out.get("witnesses", 0) + 1
             return res
-        if mode == "C13":
-            res["a"] = vm_run(progs["opt"], hy, ctx, s0, ascii=True)
-            res["b"] = vm_run(progs["opt"], hy, ctx, s0)
+        if mode in ("C13", "C13n"):
+            which = "opt" if mode == "C13" else "noopt"
+            res["a"] = vm_run(progs[which], hy, ctx, s0, ascii=True)
+            res["b"] = vm_run(progs[which], hy, ctx, s0)
             return res
         if mode == "C03":
             res["a"] = symvm.VM(progs["opt"], hy, ctx).find_from(hy.off[s0])
@@ -277,12 +282,25 @@ def run_mode(mode, case, progs, dumper, rng, budget_paths=20000, log=print):
                                      "the native time limit: exponential, not divergent; case skipped" % (text, limit))
                     return out
                 if got != real:
+                    # Either the transcription is out of date, or the REAL engine misbehaves on this concrete
+                    # input.  Decide it against the real code alone (no machine involved): if the property's own
+                    # native comparison fails on this input it is a violation, found by a concrete validation run
+                    # rather than by the solver (recorded as such).
+                    vmode = "C01n" if (mode in ("C01", "C01n") and which == "noopt") else ("C01" if mode == "C01n" else mode)
+                    cex = dict(text=text, start=hy.off[s0], a=real, b=got, widths=widths,
+                               found_by="translator validation (concrete run, not a solver counterexample)")
+                    if mode != "C05" and confirm_native(vmode, case, cex, dumper)[0]:
+                        out["result"] = "fail"
+                        out["mode_override"] = vmode
+                        out["cex"] = cex
+                        return out
                     out["result"] = "inconclusive"
                     out["detail"] = ("bytecode machine (lib/symvm.py) disagrees with the real executor on %r start %d "
                                      "(%s): machine %r, real %r - the transcription is out of date or wrong"
                                      % (text, hy.off[s0], which, got, real))
                     return out
-    if mode == "C13":
+    if mode in ("C13", "C13n"):
+        which13, noopt13 = ("opt", False) if mode == "C13" else ("noopt", True)
         # translator validation of the ASCII variant of the machine against find_from_ascii
         for _ in range(40):
             n = rng.randint(0, min(case.nmax, 4))
@@ -292,22 +310,28 @@ def run_mode(mode, case, progs, dumper, rng, budget_paths=20000, log=print):
             ex = symvm.Explorer([])
             for s0 in range(0, n + 1):
                 try:
-                    got = list(ex.explore(lambda ctx: symvm.VM(progs["opt"], hy, ctx, step_limit=STEP_LIMIT, ascii=True).find_from(hy.off[s0])))[0][1]
+                    got = list(ex.explore(lambda ctx: symvm.VM(progs[which13], hy, ctx, step_limit=STEP_LIMIT, ascii=True).find_from(hy.off[s0])))[0][1]
                 except symvm.StepLimit:
                     got = ("TIMEOUT",)
                 except symvm.ModelError as e:
                     out["result"] = "inconclusive"
                     out["detail"] = "machine (ascii) cannot run concretely: %s" % e
                     return out
-                real = native_result(dumper.find_ascii(pat, case.flags, False, text, hy.off[s0]))
+                real = native_result(dumper.find_ascii(pat, case.flags, noopt13, text, hy.off[s0]))
                 if got != real:
+                    cex = dict(text=text, start=hy.off[s0], a=real, b=got, widths=[1] * n,
+                               found_by="translator validation (concrete run, not a solver counterexample)")
+                    if confirm_native(mode, case, cex, dumper)[0]:
+                        out["result"] = "fail"
+                        out["cex"] = cex
+                        return out
                     out["result"] = "inconclusive"
                     out["detail"] = ("bytecode machine in ASCII mode disagrees with find_from_ascii on %r start %d: machine "
                                      "%r, real %r" % (text, s0, got, real))
                     return out
     # ---- exhaustive symbolic exploration per shape ----
     for widths in shapes(case):
-        if mode == "C13" and any(w != 1 for w in widths):
+        if mode in ("C13", "C13n") and any(w != 1 for w in widths):
             continue
         hy = symvm.Hay(widths)
         n = len(widths)
@@ -383,9 +407,11 @@ def confirm_native(mode, case, cex, dumper):
     if mode == "C05":
         hang = opt == ("TIMEOUT",) or noopt == ("TIMEOUT",)
         return hang, "real engine: optimised %r, no_opt %r (TIMEOUT = no answer within 8 s)" % (opt, noopt)
-    if mode == "C13":
-        asc = native_result(dumper.find_ascii(pat, case.flags, False, text, start))
-        return asc != opt, "find_from_ascii %r vs find_from %r" % (asc, opt)
+    if mode in ("C13", "C13n"):
+        no = mode == "C13n"
+        asc = native_result(dumper.find_ascii(pat, case.flags, no, text, start))
+        ref = noopt if no else opt
+        return asc != ref, "find_from_ascii %r vs find_from %r%s" % (asc, ref, " (no_opt)" if no else "")
     if mode == "C02":
         pk = native_result(dumper.find_pike(pat, case.flags, False, text, start))
         if opt != pk:
@@ -584,7 +610,7 @@ def main(argv):
                                     detail="pattern rejected by the compiler: %s" % rej, leaves=0, queries=0, solver_s=0,
                                     shapes=0, outcomes=[]))
                 continue
-            modes = {"C01": ["C01", "C01n"], "C12": ["C01", "C01n"], "C10": ["C01", "C01n"], "C03": ["C03"], "C04": ["C04"], "C05": ["C05"], "C13": ["C13"], "C16": [], "C02": ["C02"]}[mode_prop]
+            modes = {"C01": ["C01", "C01n"], "C12": ["C01", "C01n"], "C10": ["C01", "C01n"], "C03": ["C03"], "C04": ["C04"], "C05": ["C05"], "C13": ["C13", "C13n"], "C16": [], "C02": ["C02"]}[mode_prop]
             if mode_prop in ("C01", "C16") and any(case.names):
                 # C16: group names reported in source order, aligned with the capture slots (compile-side fact)
                 for which in ("opt", "noopt"):
@@ -609,7 +635,9 @@ def main(argv):
                 if getattr(case, "kf", None):
                     r["kf"] = case.kf
                 if r["result"] == "fail":
-                    ok, desc = confirm_native(mode, case, r["cex"], d)
+                    ok, desc = confirm_native(r.get("mode_override", mode), case, r["cex"], d)
+                    if r["cex"].get("found_by"):
+                        desc += " [" + r["cex"]["found_by"] + "]"
                     r["reproduced"] = ok
                     r["native"] = desc
                     if not ok and mode == "C05":
